@@ -334,7 +334,17 @@ harness! {
     }
 }
 harness! {
-    /// kind=bounded tier=quick bound="0..=3 string pieces of <=2 bytes, &str separator of <=2 bytes, joined length 6"
+    /// kind=bounded tier=quick bound="0..=3 string pieces of <=2 bytes, &str separator of <=2 bytes, joined length 5"
+    #[kani::unwind(8)]
+    fn c20_str_join_strsep_n5(s) {
+        let v = join_case::<_, 5>(s, false);
+        cov!(s, v.n == 3 && v.sep_len == 2 && v.lens[0] == 1 && v.lens[1] == 0 && v.multibyte, "C20.cover.join_n5_1_0_0_multibyte_sep");
+        cov!(s, v.n == 3 && v.sep_len == 1 && v.lens[0] == 1 && v.lens[1] == 1, "C20.cover.join_n5_1_1_1");
+        cov!(s, v.n == 2 && v.sep_len == 1 && v.lens[0] == 2, "C20.cover.join_n5_two_full_pieces");
+    }
+}
+harness! {
+    /// kind=bounded tier=thorough bound="0..=3 string pieces of <=2 bytes, &str separator of <=2 bytes, joined length 6"
     #[kani::unwind(9)]
     fn c20_str_join_strsep_n6(s) {
         let v = join_case::<_, 6>(s, false);
@@ -447,30 +457,45 @@ fn same_cstr(a: &CStr, b: &CStr) -> bool {
     same_slice(a.to_bytes_with_nul(), b.to_bytes_with_nul())
 }
 
+fn cstr_constructors_case<S: Src, const L: usize>(s: &mut S) -> ([u8; L], usize, bool, bool) {
+    let raw: [u8; L] = s.bytes();
+    let len = s.upto(L);
+    let b = &raw[..len];
+    let k = cstr::from_bytes_until_nul(b);
+    let e = CStr::from_bytes_until_nul(b);
+    chk!(s, k.is_ok() == e.is_ok(), "C20.cstr.from_bytes_until_nul.ok_iff_std");
+    if let (Ok(kc), Ok(ec)) = (&k, &e) {
+        chk!(s, same_cstr(kc, ec), "C20.cstr.from_bytes_until_nul.same_cstr_as_std");
+    }
+    let k2 = cstr::from_bytes_with_nul(b);
+    let e2 = CStr::from_bytes_with_nul(b);
+    chk!(s, k2.is_ok() == e2.is_ok(), "C20.cstr.from_bytes_with_nul.ok_iff_std");
+    if let (Ok(kc), Ok(ec)) = (&k2, &e2) {
+        chk!(s, same_cstr(kc, ec), "C20.cstr.from_bytes_with_nul.same_cstr_as_std");
+    }
+    (raw, len, e.is_ok(), e2.is_ok())
+}
+
 harness! {
-    /// kind=bounded tier=quick bound="every byte string of length 0..=5, all byte values (nul anywhere, several nuls, no nul)"
-    #[kani::unwind(9)]
+    /// kind=bounded tier=quick bound="every byte string of length 0..=6, all byte values (nul anywhere, several nuls, no nul)"
+    #[kani::unwind(10)]
     fn c20_cstr_constructors(s) {
-        let raw: [u8; 5] = s.bytes();
-        let len = s.upto(5);
-        let b = &raw[..len];
-        let k = cstr::from_bytes_until_nul(b);
-        let e = CStr::from_bytes_until_nul(b);
-        chk!(s, k.is_ok() == e.is_ok(), "C20.cstr.from_bytes_until_nul.ok_iff_std");
-        if let (Ok(kc), Ok(ec)) = (&k, &e) {
-            chk!(s, same_cstr(kc, ec), "C20.cstr.from_bytes_until_nul.same_cstr_as_std");
-        }
-        let k2 = cstr::from_bytes_with_nul(b);
-        let e2 = CStr::from_bytes_with_nul(b);
-        chk!(s, k2.is_ok() == e2.is_ok(), "C20.cstr.from_bytes_with_nul.ok_iff_std");
-        if let (Ok(kc), Ok(ec)) = (&k2, &e2) {
-            chk!(s, same_cstr(kc, ec), "C20.cstr.from_bytes_with_nul.same_cstr_as_std");
-        }
-        cov!(s, len == 5 && raw[2] == 0 && raw[4] == 0 && raw[0] != 0 && raw[1] != 0, "C20.cover.cstr_interior_and_final_nul");
-        cov!(s, len == 5 && e2.is_ok(), "C20.cover.cstr_with_nul_ok");
-        cov!(s, len == 5 && e.is_err(), "C20.cover.cstr_no_nul");
+        let (raw, len, until_ok, with_ok) = cstr_constructors_case::<_, 6>(s);
+        cov!(s, len == 6 && raw[2] == 0 && raw[5] == 0 && raw[0] != 0 && raw[1] != 0, "C20.cover.cstr_interior_and_final_nul");
+        cov!(s, len == 6 && with_ok, "C20.cover.cstr_with_nul_ok");
+        cov!(s, len == 6 && !until_ok, "C20.cover.cstr_no_nul");
         cov!(s, len == 0, "C20.cover.cstr_empty_input");
         cov!(s, len == 3 && raw[0] == 0, "C20.cover.cstr_leading_nul");
+    }
+}
+
+harness! {
+    /// kind=bounded tier=thorough bound="every byte string of length 0..=9, all byte values (std's word-at-a-time memchr path, which needs >= 16 bytes, is not reached)"
+    #[kani::unwind(13)]
+    fn c20_cstr_constructors_big(s) {
+        let (raw, len, until_ok, with_ok) = cstr_constructors_case::<_, 9>(s);
+        cov!(s, len == 9 && with_ok, "C20.cover.cstr_big_with_nul_ok");
+        cov!(s, len == 9 && until_ok && !with_ok && raw[8] == 0, "C20.cover.cstr_big_interior_and_final_nul");
     }
 }
 
